@@ -545,6 +545,7 @@ class Prover:
         self.B, self.unit, self.n, self.ok = B, unit, 0, {}
         self.circles, self.spheres = [], []
         self.rng = random.Random(20260922)
+        self.second_left = 40        # thorough tier: cvc5 second opinion on the first 40 solver obligations of this unit (time-boxed in symlib)
 
     def set_chart(self, sc):
         """the (cos,sin) pairs and the unit quaternion of a scenario: sample points for the numeric refuter are taken ON these constraints"""
@@ -629,14 +630,20 @@ class Prover:
                 if cex is not None:
                     r = S.Result("failed", 0.0, model=cex, backend="exact evaluation at a rational sample point satisfying the hypotheses")
             if r is None:
-                r = S.prove(g, side=list(hyps), timeout_ms=T, name=nm, outdir=os.path.join(B.ctx.out, "smt2"), second_opinion=second)
+                so = second and self.second_left > 0
+                self.second_left -= 1 if so else 0
+                r = S.prove(g, side=list(hyps), timeout_ms=T, name=nm, outdir=os.path.join(B.ctx.out, "smt2"), second_opinion=so)
             B.record(nm, self.unit, r, function, detail)
             allok = allok and r.status == "discharged"
         self.ok[name] = allok
         return allok
 
     def holds(self, name, goal, hyps=(), T=20000, function=None):
-        r = self.B.prove_bool(name, goal, list(hyps), self.unit, function, timeout_ms=T, minimal=True)
+        if z3.is_true(goal) or z3.is_false(goal):       # a fact established by the symbolic run itself (flags, counters, identities of objects)
+            r = S.Result("discharged" if z3.is_true(goal) else "failed", 0.0, backend="python (fact of the symbolic execution)")
+            self.B.record(name, self.unit, r, function, "lemma %s" % name)
+        else:
+            r = self.B.prove_bool(name, goal, list(hyps), self.unit, function, timeout_ms=T, minimal=True)
         self.ok[name] = r.status == "discharged"
         return self.ok[name]
 
